@@ -23,7 +23,7 @@ type unitDef struct {
 }
 
 func runC15(c *Check) {
-	c.Explanation = "Decides the unit-table part of C15 (the float arithmetic is out of static reach): the table of known units is evaluated from its literal and checked for well-formedness — aliases are pairwise distinct across all families (no cross-family or ambiguous conversion), every alias survives the normalisation that sniffUnit applies before the lookup (so no listed spelling is dead), every canonical name that pprof prints resolves back to its own unit, factors are positive and strictly increasing inside a family, each factor equals the one its long alias implies (binary steps for bytes, SI steps for time and GCU, 3600 s per hour), the default unit of a family is one of its units with the same factor (R1-R4); the special target names handled by convertUnit ('minimum', 'auto') are also in Scale's list of units that print no suffix (R5). The normalisation is not re-implemented blindly: its parameters (length measure, threshold, suffix) are extracted from sniffUnit's code. Not decided: rounding, monotonicity, extremes (MinInt64), percentages."
+	c.Explanation = "Decides the unit-table part of C15 (the float arithmetic is out of static reach): the table of known units is evaluated from its literal and checked for well-formedness — aliases are pairwise distinct across all families (no cross-family or ambiguous conversion), every alias survives the normalisation that sniffUnit applies before the lookup (so no listed spelling is dead), every canonical name that pprof prints resolves back to its own unit, factors are positive and strictly increasing inside a family, each factor equals the one its long alias implies (binary steps for bytes, SI steps for time and GCU, 3600 s per hour), the default unit of a family is one of its units with the same factor (R1-R4); the special target names handled by convertUnit ('minimum', 'auto') are also in Scale's list of units that print no suffix (R5). The normalisation is not re-implemented blindly: its parameters (length measure, threshold, suffix) are extracted from sniffUnit's code. Also: convertUnit returns v/U.Factor together with U's name for the same U (R6), CommonValueType compares against the running minimum (R7), differing units are compatible only within one family (R8), Percentage formats only absolute values (R9). Not decided: rounding, monotonicity, float behaviour at the extremes."
 	p := c.P
 	pk := p.Pkg("internal/measurement")
 	if pk == nil {
@@ -261,6 +261,144 @@ func runC15(c *Check) {
 	}
 	c.valueUnitPairing()
 	c.runningMinimum()
+	c.sameFamily()
+	c.absolutePercentage()
+}
+
+// R8: two value types with different units are compatible only when one and the same
+// unit family recognises both units.  In compatibleValueTypes the successful return for
+// differing units must be dominated by two sniffUnit calls on the same family value, one
+// for each operand's unit; testing each unit for being known to *some* family would let
+// bytes and milliseconds be harmonised.
+func (c *Check) sameFamily() {
+	p := c.P
+	f := c.anchorFn("C15-R8", "internal/measurement", "compatibleValueTypes")
+	if f == nil {
+		return
+	}
+	type sniff struct {
+		call *ssa.Call
+		recv ssa.Value
+		par  *ssa.Parameter
+	}
+	var sniffs []sniff
+	for _, b := range f.Blocks {
+		for _, ins := range b.Instrs {
+			call, ok := ins.(*ssa.Call)
+			if !ok || call.Call.StaticCallee() == nil || call.Call.StaticCallee().Name() != "sniffUnit" || len(call.Call.Args) != 2 {
+				continue
+			}
+			recv := call.Call.Args[0]
+			if ld, ok := recv.(*ssa.UnOp); ok && ld.Op == token.MUL {
+				recv = ld.X
+			}
+			var par *ssa.Parameter
+			if ld, ok := call.Call.Args[1].(*ssa.UnOp); ok && ld.Op == token.MUL {
+				if fa, ok := ld.X.(*ssa.FieldAddr); ok {
+					if _, F := fieldOf(fa.X.Type(), fa.Field); F == "Unit" {
+						par, _ = fa.X.(*ssa.Parameter)
+					}
+				}
+			}
+			sniffs = append(sniffs, sniff{call, recv, par})
+		}
+	}
+	pos := p.relFile(f.Pos())
+	okPair := false
+	for _, a := range sniffs {
+		for _, b := range sniffs {
+			if a.call == b.call || a.par == nil || b.par == nil || a.par == b.par || a.recv != b.recv {
+				continue
+			}
+			// a successful return dominated by both tests
+			for _, blk := range f.Blocks {
+				ret, ok := blk.Instrs[len(blk.Instrs)-1].(*ssa.Return)
+				if !ok || len(ret.Results) != 1 {
+					continue
+				}
+				if k, ok := ret.Results[0].(*ssa.Const); ok && k.Value != nil && constant.BoolVal(k.Value) &&
+					a.call.Block().Dominates(blk) && b.call.Block().Dominates(blk) {
+					okPair = true
+					pos = p.relFile(ret.Pos())
+				}
+			}
+		}
+	}
+	if okPair {
+		c.ok("C15-R8", "same-family", pos, "differing units are compatible only within one family", "the successful return is dominated by sniffUnit tests of both operands' units on the same family value")
+	} else {
+		c.bad("C15-R8", "same-family", pos, "compatibleValueTypes no longer tests both units against the same unit family: units of different families (bytes and milliseconds) are declared compatible and harmonisation relabels one profile's values with the other's unit")
+	}
+}
+
+// R9: percentages are computed from absolute ratios.  Every number formatted by
+// Percentage is non-negative by construction (math.Abs, constants >= 0 and products,
+// quotients and sums of such values).
+func (c *Check) absolutePercentage() {
+	p := c.P
+	f := c.anchorFn("C15-R9", "internal/measurement", "Percentage")
+	if f == nil {
+		return
+	}
+	var nonNeg func(v ssa.Value, seen map[ssa.Value]bool) bool
+	nonNeg = func(v ssa.Value, seen map[ssa.Value]bool) bool {
+		if seen[v] {
+			return true
+		}
+		seen[v] = true
+		switch x := v.(type) {
+		case *ssa.Const:
+			return x.Value != nil && constant.Sign(x.Value) >= 0
+		case *ssa.Call:
+			if callee := x.Call.StaticCallee(); callee != nil && callee.String() == "math.Abs" {
+				return true
+			}
+		case *ssa.BinOp:
+			switch x.Op {
+			case token.MUL, token.QUO, token.ADD:
+				return nonNeg(x.X, seen) && nonNeg(x.Y, seen)
+			}
+		case *ssa.Phi:
+			for _, e := range x.Edges {
+				if !nonNeg(e, seen) {
+					return false
+				}
+			}
+			return true
+		case *ssa.Convert:
+			return nonNeg(x.X, seen)
+		case *ssa.MakeInterface:
+			return nonNeg(x.X, seen)
+		}
+		return false
+	}
+	n := 0
+	for _, b := range f.Blocks {
+		for _, ins := range b.Instrs {
+			call, ok := ins.(*ssa.Call)
+			if !ok || call.Call.StaticCallee() == nil || call.Call.StaticCallee().String() != "fmt.Sprintf" {
+				continue
+			}
+			for _, a := range variadicValues(call.Call.Args[1]) {
+				if a == nil {
+					continue
+				}
+				if bt, ok := a.Type().Underlying().(*types.Basic); !ok || bt.Info()&types.IsFloat == 0 {
+					continue
+				}
+				n++
+				key := "abs-percentage"
+				if nonNeg(a, map[ssa.Value]bool{}) {
+					c.ok("C15-R9", key, p.relFile(call.Pos()), "the ratio printed by Percentage is an absolute value", "built only from math.Abs, non-negative constants and their products/quotients")
+				} else {
+					c.bad("C15-R9", key, p.relFile(call.Pos()), "Percentage formats a ratio that is not an absolute value: a value and total of opposite sign (diff reports) print a negative percentage")
+				}
+			}
+		}
+	}
+	if n == 0 {
+		c.undecided("C15-R9", "abs-percentage", p.relFile(f.Pos()), "no formatted ratio found in Percentage")
+	}
 }
 
 // addrPath describes an address as root value + field path, so two separately emitted
